@@ -878,6 +878,32 @@ func r7bSticky(c *RuleCtx) {
 						}
 					}
 				}
+				// ... or, where the constructor of the file's owner keeps the writer in a field of the owner
+				// (`br: br` next to `cr: NewCountHashWriter…(br, s)`), in a routine that flushes that field
+				if !flushed && a.Referrers() != nil {
+					for _, r := range *a.Referrers() {
+						st, ok := r.(*ssa.Store)
+						if !ok || st.Val != ssa.Value(a) {
+							continue
+						}
+						fa, ok := st.Addr.(*ssa.FieldAddr)
+						if !ok || ownerOfType(c.p.owners, fa.X.Type()) == nil {
+							continue
+						}
+						for _, f2 := range c.p.ZapFuncs {
+							for _, cs2 := range callSites(f2) {
+								if !isCallTo(cs2, "(*bufio.Writer).Flush") || droppedError(cs2) {
+									continue
+								}
+								if u, ok := recvOrArg0(cs2).(*ssa.UnOp); ok && u.Op == token.MUL {
+									if fa2, ok := u.X.(*ssa.FieldAddr); ok && fa2.Field == fa.Field && types.Identical(derefType(fa2.X.Type()), derefType(fa.X.Type())) {
+										flushed = true
+									}
+								}
+							}
+						}
+					}
+				}
 				if !flushed {
 					kind = "bufio.Writer-unflushed"
 				}
